@@ -202,7 +202,9 @@ class _MCQuad(torch.autograd.Function):
                     pout = log_pfcn(x, *pparams)
             # derivative of fparams
             dLdthetaf = []
-            if len(ftensor_params) > 0:
+            if len(ftensor_params) > 0 and not fout.requires_grad:
+                dLdthetaf = convert_none_grads_to_zeros([None for _ in ftensor_params], ftensor_params)
+            elif len(ftensor_params) > 0:
                 dLdthetaf = torch.autograd.grad(fout, ftensor_params,
                                                 grad_outputs=grad_epf,
                                                 retain_graph=True,
@@ -211,7 +213,9 @@ class _MCQuad(torch.autograd.Function):
                 dLdthetaf = convert_none_grads_to_zeros(dLdthetaf, ftensor_params)
             # derivative of pparams
             dLdthetap = []
-            if len(ptensor_params) > 0:
+            if len(ptensor_params) > 0 and not pout.requires_grad:
+                dLdthetap = convert_none_grads_to_zeros([None for _ in ptensor_params], ptensor_params)
+            elif len(ptensor_params) > 0:
                 dLdef = torch.dot((fout - epf).reshape(-1), grad_epf.reshape(-1))
                 dLdthetap = torch.autograd.grad(pout, ptensor_params,
                                                 grad_outputs=dLdef.reshape(pout.shape),
